@@ -429,7 +429,12 @@ class Interp:
         o = self.ev(e.value, env, mod)
         if o is None: raise PyRaise(EXC["TypeError"], "'NoneType' object is not subscriptable")
         if isinstance(o, Unresolved): return o           # typing subscripts such as Float[Array, "n"]
-        return subscript(o, self.ev_index(e.slice, env, mod))
+        idx = self.ev_index(e.slice, env, mod)
+        if isinstance(o, dict) and is_z3(idx):           # symbolic key into a literal dict: one path per key, KeyError otherwise
+            for k in o:
+                if isinstance(k, int) and not isinstance(k, bool) and self.truth(idx == k): return o[k]
+            raise PyRaise(EXC["KeyError"], str(idx))
+        return subscript(o, idx)
     def ev_index(self, s, env, mod):
         if isinstance(s, ast.Slice):
             return slice(*(self.ev(x, env, mod) if x is not None else None for x in (s.lower, s.upper, s.step)))
